@@ -258,6 +258,14 @@ Fixpoint enc_sem_ty (t : sem_ty) : json :=
   | SArray t' n => tagc "Array" (JArr [enc_sem_ty t'; enc_N n])
   end.
 
+(** the [StructTypes] object alone (the content of [Type::Struct], and the [type_decl] member of
+    the global instruction [Types]) *)
+Definition enc_sstruct_body (n : string) (attrs : list (string * N * sem_ty)) : json :=
+  JObj [("name", JStr n);
+        ("attributes",
+          JObj (map (fun a => let '(x, i, t') := a in (x, enc_sattr x i (enc_sem_ty t'))) attrs));
+        ("methods", JObj [])].
+
 Fixpoint dec_sem_ty (j : json) : option sem_ty :=
   tagged j no_unit (fun tag c =>
     if tag_is tag "Primitive" then option_map SPrim (dec_prim_ty c)
@@ -763,3 +771,59 @@ Definition dec_err (j : json) : option err :=
 
 Definition enc_errors (es : list err) : json := JArr (map enc_err es).
 Definition dec_errors (j : json) : option (list err) := dec_arr dec_err j.
+
+(** ** The global stack ([GlobalSemanticContext]): [Types], [Constant], [FunctionDeclaration].
+
+    PARTIAL with respect to the wire shape, by the model's choice (DESIGN.md 4.6): the Rust
+    [FunctionDeclaration { fn_decl: FunctionStatement }] carries a mirror of the whole function
+    body (member ["body"]); the model's [GFnDecl] keeps the signature only.  [enc_ginstr] writes
+    the [fn_decl] object WITHOUT the ["body"] member: a comparison with the implementation has to
+    drop that member (the harness compares the mirror in place).  [Types] and [Constant] are exact.
+    [GTypes t] with [t] not a struct has no Rust counterpart; it is mapped injectively to a tree
+    serde never produces (the whole tagged [Type] in place of the [StructTypes] object). *)
+Definition enc_sparam (p : string * sem_ty) : json :=
+  JObj [("name", JStr (fst p)); ("parameter_type", enc_sem_ty (snd p))].
+Definition dec_sparam (j : json) : option (string * sem_ty) :=
+  obj2 "name" "parameter_type" j (fun jn jt =>
+    let? n := dec_str jn in let? t := dec_sem_ty jt in Some (n, t)).
+
+Definition enc_ginstr (g : ginstr) : json :=
+  match g with
+  | GTypes t =>
+      tagc "Types"
+        (JObj [("type_decl", match t with
+                             | SStruct n attrs => enc_sstruct_body n attrs
+                             | _ => enc_sem_ty t
+                             end)])
+  | GConst c => tagc "Constant" (JObj [("const_decl", enc_const_sem c)])
+  | GFnDecl n ps r =>
+      tagc "FunctionDeclaration"
+        (JObj [("fn_decl", JObj [("name", JStr n); ("parameters", JArr (map enc_sparam ps));
+                                 ("result_type", enc_sem_ty r)])])
+  end.
+
+Definition dec_ginstr (j : json) : option ginstr :=
+  tagged j no_unit (fun tag c =>
+    if tag_is tag "Types" then
+      obj1 "type_decl" c (fun jb =>
+        match dec_sem_ty (tagc "Struct" jb) with
+        | Some t => Some (GTypes t)
+        | None =>
+            match dec_sem_ty jb with
+            | Some (SStruct _ _) | None => None
+            | Some t => Some (GTypes t)
+            end
+        end)
+    else if tag_is tag "Constant" then
+      obj1 "const_decl" c (fun jc => option_map GConst (dec_const_sem jc))
+    else if tag_is tag "FunctionDeclaration" then
+      obj1 "fn_decl" c (fun jf =>
+        obj3 "name" "parameters" "result_type" jf (fun jn jp jr =>
+          let? n := dec_str jn in
+          let? ps := dec_arr dec_sparam jp in
+          let? r := dec_sem_ty jr in
+          Some (GFnDecl n ps r)))
+    else None).
+
+Definition enc_gstack (c : list ginstr) : json := JArr (map enc_ginstr c).
+Definition dec_gstack (j : json) : option (list ginstr) := dec_arr dec_ginstr j.
